@@ -181,6 +181,7 @@ type c06Doc struct {
 	content  string
 	branches []string
 	lang     string
+	syms     []string // symbol names: the first occurrence of each in content is a symbol section (in order)
 }
 
 type c06Repo struct {
@@ -196,13 +197,31 @@ var c06Repos = []c06Repo{
 }
 
 var c06Docs = []c06Doc{
-	{0, "cmd/main.go", "package main\nfunc Hello() { foo bar }\n", []string{"main"}, "Go"},
-	{0, "lib/Foo.py", "def hello():\n    return 'Foo Bar'\n", []string{"main", "dev"}, "Python"},
-	{0, "README.md", "hello world\nabc a.b x+y\n", []string{"dev"}, "Markdown"},
-	{0, "foo", "", []string{"main"}, "Text"},
-	{1, "src/bar.go", "package bar\nvar Hello = \"q\\\"r\"\n", []string{"main"}, "Go"},
-	{1, "src/hello_world.py", "print('hello world')  # FOO\n", []string{"release"}, "Python"},
-	{1, "docs/a b.txt", "a b\nfoo(bar)\n", []string{"main", "release"}, "Text"},
+	{0, "cmd/main.go", "package main\nfunc Hello() { foo bar }\n", []string{"main"}, "Go", []string{"Hello"}},
+	{0, "lib/Foo.py", "def hello():\n    return 'Foo Bar'\n", []string{"main", "dev"}, "Python", []string{"hello"}},
+	{0, "README.md", "hello world\nabc a.b x+y\n", []string{"dev"}, "Markdown", nil},
+	{0, "foo", "", []string{"main"}, "Text", nil},
+	{1, "src/bar.go", "package bar\nvar Hello = \"q\\\"r\"\n", []string{"main"}, "Go", []string{"Hello"}},
+	{1, "src/hello_world.py", "print('hello world')  # FOO\n", []string{"release"}, "Python", nil},
+	{1, "docs/a b.txt", "a b\nfoo(bar)\n", []string{"main", "release"}, "Text", nil},
+	// three documents that differ ONLY in letter case (names, contents, symbols)
+	{0, "src/Case.txt", "const USER_id = GetGetuser(xABy) HELLO\n", []string{"main"}, "Text", []string{"USER_id", "GetGetuser"}},
+	{0, "src/case.txt", "const user_id = getgetuser(xaby) hello\n", []string{"main"}, "Text", []string{"user_id", "getgetuser"}},
+	{1, "SRC/CASE.TXT", "CONST USER_ID = GETGETUSER(XABY) HELLO\n", []string{"main"}, "Text", []string{"USER_ID", "GETGETUSER"}},
+}
+
+func (d *c06Doc) sections() []DocumentSection {
+	var out []DocumentSection
+	from := 0
+	for _, sy := range d.syms {
+		i := strings.Index(d.content[from:], sy)
+		if i < 0 {
+			panic("corpus: symbol " + sy + " not in " + d.name)
+		}
+		out = append(out, DocumentSection{Start: uint32(from + i), End: uint32(from + i + len(sy))})
+		from += i + len(sy)
+	}
+	return out
 }
 
 func c06Shards(t *testing.T) []zoekt.Searcher {
@@ -220,7 +239,7 @@ func c06Shards(t *testing.T) []zoekt.Searcher {
 			if d.repo != ri {
 				continue
 			}
-			if err := b.Add(Document{Name: d.name, Content: []byte(d.content), Branches: d.branches, Language: d.lang}); err != nil {
+			if err := b.Add(Document{Name: d.name, Content: []byte(d.content), Branches: d.branches, Language: d.lang, Symbols: d.sections()}); err != nil {
 				t.Fatal(err)
 			}
 		}
@@ -250,8 +269,38 @@ func c06HasUpper(s string) bool {
 
 // pattern matching of the document: a Go regular expression; case:yes exact, case:no insensitive, case:auto
 // sensitive iff the pattern has an upper-case letter
+// true = what the implementation does for upper-case letters that occur only inside a negated class [^A-Z]
+// (they are not seen: regexp/syntax has already complemented the class); reported under its own finding key
+var c06NegClassLenient = false
+
+// upper-case letters outside negated character classes
+func c06HasUpperOutsideNeg(s string) bool {
+	for i := 0; i < len(s); i++ {
+		if s[i] == '\\' {
+			i++
+			continue
+		}
+		if s[i] == '[' && i+1 < len(s) && s[i+1] == '^' {
+			j := strings.IndexByte(s[i:], ']')
+			if j < 0 {
+				return c06HasUpper(s)
+			}
+			i += j
+			continue
+		}
+		if s[i] >= 'A' && s[i] <= 'Z' {
+			return true
+		}
+	}
+	return false
+}
+
 func c06Match(v string, flavor int, target string) bool {
-	sensitive := flavor == 0 || (flavor == 2 && c06HasUpper(v))
+	upper := c06HasUpper(v)
+	if c06NegClassLenient {
+		upper = c06HasUpperOutsideNeg(v)
+	}
+	sensitive := flavor == 0 || (flavor == 2 && upper)
 	p := v
 	if !sensitive {
 		p = "(?i)" + v
@@ -315,6 +364,14 @@ func c06Eval(e *dExpr, k int, d *c06Doc) bool {
 			return c06Match(e.w.v, k, d.content) || (c06RegexLenient && c06Match(e.w.v, k, d.name))
 		case "repo":
 			return regexp.MustCompile(e.w.v).MatchString(r.name)
+		case "sym":
+			// "Searches for symbol names": the pattern matches (inside) the name of one of the document's symbols
+			for _, sy := range d.syms {
+				if c06Match(e.w.v, k, sy) {
+					return true
+				}
+			}
+			return false
 		case "branch":
 			for _, b := range d.branches {
 				if strings.Contains(b, e.w.v) {
@@ -343,17 +400,105 @@ func c06Eval(e *dExpr, k int, d *c06Doc) bool {
 // ---------------------------------------------------------------- generator
 
 type c06Gen struct {
-	r       *vfRand
-	evalOK  bool // only constructs the reference evaluator covers (no sym:, no type:filename)
-	plain   []string
-	quoted  []string
-	litOnly bool
+	r      *vfRand
+	evalOK bool // the query is also reference-evaluated on the corpus
+	rx     bool // regexp words derived from the case-pair documents
 }
 
 var c06Plain = []string{"foo", "Foo", "hello", "Hello", "bar", "a.b", "x+y", "fo+", "[a-c]b", "main", "world", "o", "FOO", "hel+o", "q", "é"}
 var c06Quoted = []string{"hello world", "Foo Bar", "a b", "q\"r", "foo(bar)", "(foo|hello) ", "x\\+y", "or", "f:x", "-foo", "package main", "case:yes", "a\\.b", "\\(bar\\)", " ", "(a|B)", "\\\\"}
 
+// regexps derived from a word of the case-pair documents: the word is cut into segments and every segment is
+// printed as a literal or below a regexp operator (class, repetition, group, alternation), so that the
+// upper-case letters of the pattern end up at every kind of position of the syntax tree - in particular ONLY
+// below repetition / group operators.  The pattern always keeps one literal segment, so it never matches the
+// empty string.  With lower=true the whole pattern is lower-cased (no upper-case letter: insensitive in auto).
+type c06Seg struct {
+	text  string
+	upper bool
+}
+
+var c06RxTargets = [][]c06Seg{
+	{{"USER", true}, {"_id", false}},
+	{{"Get", true}, {"Get", true}, {"user", false}},
+	{{"x", false}, {"AB", true}, {"y", false}},
+	{{"= ", false}, {"Get", true}, {"Getuser", true}},
+	{{") ", false}, {"HELLO", true}},
+	{{"C", true}, {"ase.txt", false}},
+	{{"const ", false}, {"USER", true}},
+	{{"H", true}, {"ello", false}},
+	{{"F", true}, {"oo", false}},
+	{{"user", false}, {"_", false}, {"id", false}},
+	{{"get", false}, {"user", false}, {"(", false}},
+}
+
+func c06RxQuote(t string) string { return regexp.QuoteMeta(t) }
+
+func (g *c06Gen) rxSeg(sg c06Seg, underOp bool) string {
+	r := g.r
+	lit := c06RxQuote(sg.text)
+	allUp := sg.text == strings.ToUpper(sg.text) && sg.text != strings.ToLower(sg.text)
+	n := len(sg.text)
+	var opts []string
+	if !underOp {
+		opts = append(opts, lit)
+	}
+	if allUp {
+		opts = append(opts, "[A-Z]+", "[A-Z]*", fmt.Sprintf("[A-Z]{0,%d}", n), fmt.Sprintf("[A-Z]{1,%d}", n+1),
+			"(?:"+lit+")+", "("+lit+")+", "(?:"+lit+"|zzz)?", "(?:[A-Z]|[0-9])+", "(?:"+lit+"){0,2}")
+		var q strings.Builder // U?S?E?R? : every letter below its own '?'
+		for i := 0; i < n; i++ {
+			q.WriteString(sg.text[i:i+1] + "?")
+		}
+		opts = append(opts, q.String())
+		if !underOp {
+			opts = append(opts, fmt.Sprintf("[A-Z]{%d}", n), fmt.Sprintf("[A-Z]{%d,}", n), "["+sg.text+"]+", "(?:"+lit+"|zzz)", "("+lit+")")
+		}
+	} else if sg.upper { // mixed case, e.g. Get
+		opts = append(opts, "(?:"+lit+")+", "("+lit+")+", "(?:"+lit+")?", "(?:"+lit+"){1,2}", "(?:"+lit+"|Zzz)*",
+			sg.text[:1]+"?"+c06RxQuote(sg.text[1:]), "[A-Z]?"+c06RxQuote(sg.text[1:]), "(?:[A-Z]"+c06RxQuote(sg.text[1:])+")+")
+		if !underOp {
+			opts = append(opts, "[A-Z]"+c06RxQuote(sg.text[1:]), "("+lit+")", "(?:"+lit+"|Zzz)")
+		}
+	} else {
+		opts = append(opts, lit, lit, lit, "(?:"+lit+")+", "[a-z_ =.]+", "[a-z_ =.]*", "("+lit+")", ".{0,1}"+lit)
+		if r.Chance(15) { // a negated class: its upper-case letters are not in the syntax tree any more
+			opts = []string{"[^A-Z]+", fmt.Sprintf("[^A-Z]{%d}", n), "[^A-Z(]*"}
+		}
+	}
+	return r.Pick(opts)
+}
+
+func (g *c06Gen) rxWord() dWord {
+	r := g.r
+	segs := c06RxTargets[r.Intn(len(c06RxTargets))]
+	underOp := r.Chance(60) // all upper-case letters below an operator
+	keep := -1              // one lower-case segment stays a literal
+	for i, sg := range segs {
+		if !sg.upper && (keep < 0 || r.Bool()) {
+			keep = i
+		}
+	}
+	var b strings.Builder
+	for i, sg := range segs {
+		if i == keep {
+			b.WriteString(c06RxQuote(sg.text))
+		} else {
+			b.WriteString(g.rxSeg(sg, underOp))
+		}
+	}
+	v := b.String()
+	if r.Chance(20) {
+		v = strings.ReplaceAll(strings.ToLower(v), "[^a-z", "[^A-Z")
+	}
+	quoted := strings.ContainsAny(v, " ()\"\\") || r.Chance(25)
+	return dWord{quoted, v}
+}
+
 func (g *c06Gen) word() dWord {
+	if g.rx && g.r.Chance(40) {
+		return g.rxWord()
+	}
 	if g.r.Chance(35) {
 		return dWord{true, g.r.Pick(c06Quoted)}
 	}
@@ -381,7 +526,7 @@ func (g *c06Gen) atom() *dExpr {
 	case 7:
 		return &dExpr{kind: "field", field: "repo", alias: r.Bool(), w: dWord{r.Chance(30), r.Pick([]string{"acme", "foo$", "Bar", "bar", "git(hub|lab)", "zzz", "\\.com/", "legacy"})}}
 	case 8:
-		if g.evalOK {
+		if r.Bool() {
 			return &dExpr{kind: "field", field: "branch", alias: r.Bool(), w: dWord{r.Chance(30), r.Pick([]string{"main", "dev", "release", "e", "zzz", "mai"})}}
 		}
 		return &dExpr{kind: "field", field: "sym", w: g.word()}
@@ -432,10 +577,7 @@ func (g *c06Gen) query(depth int) [][]*dExpr {
 		ins(&dExpr{kind: "case", flavor: r.Intn(3)})
 	}
 	if r.Chance(15) {
-		t := r.Pick([]string{"0", "3"})
-		if !g.evalOK {
-			t = r.Pick([]string{"0", "1", "2", "3"})
-		}
+		t := r.Pick([]string{"0", "1", "2", "3"})
 		ins(&dExpr{kind: "type", alias: r.Bool(), rtype: int(t[0] - '0')})
 	}
 	return q
@@ -510,7 +652,7 @@ func c06Words(q [][]*dExpr, out map[string]bool) {
 
 func c06Tables(texts map[string]bool) (string, string) {
 	var rows []string
-	rx := map[string]bool{}
+	rx := map[string]string{}
 	var keys []string
 	for k := range texts {
 		keys = append(keys, k)
@@ -525,7 +667,7 @@ func c06Tables(texts map[string]bool) (string, string) {
 				rq = cApp("RQLit", c06hS(s.Pattern))
 			case *query.Regexp:
 				rq = cApp("RQRx", c06Rx(s.Regexp))
-				rx[s.Regexp.String()] = !s.Regexp.Equal(query.LowerRegexp(s.Regexp))
+				rx[s.Regexp.String()] = c06Re(s.Regexp)
 			}
 		}
 		_, cerr := gregexp.Compile(t)
@@ -541,13 +683,148 @@ func c06Tables(texts map[string]bool) (string, string) {
 	}
 	var rr []string
 	for _, k := range vfSortedKeys(rx) {
-		rr = append(rr, cTuple(c06hS(k), cBool(rx[k])))
+		rr = append(rr, cTuple(c06hS(k), rx[k]))
 	}
 	rxt := "[]"
 	if len(rr) > 0 {
 		rxt = cList(rr)
 	}
 	return table, rxt
+}
+
+// the syntax tree of a *syntax.Regexp as a term of coq/Model/Regex.v's [re]; the model of LowerRegexp /
+// Regexp.Equal (coq/Model/RegexCase.v) decides case:auto on it - the implementation's answer is NOT fed in
+func c06Re(re *syntax.Regexp) string {
+	subs := func() string {
+		if len(re.Sub) == 0 {
+			return "(@nil ZV.Model.Regex.re)"
+		}
+		ss := make([]string, len(re.Sub))
+		for i, s := range re.Sub {
+			ss[i] = c06Re(s)
+		}
+		return "[" + strings.Join(ss, "; ") + "]"
+	}
+	runes := func() string {
+		if len(re.Rune) == 0 {
+			return "(@nil N)"
+		}
+		ss := make([]string, len(re.Rune))
+		for i, c := range re.Rune {
+			ss[i] = fmt.Sprint(int64(c))
+		}
+		return "[" + strings.Join(ss, ";") + "]%N"
+	}
+	switch re.Op {
+	case syntax.OpNoMatch:
+		return "RNoMatch"
+	case syntax.OpEmptyMatch:
+		return "REmpty"
+	case syntax.OpLiteral:
+		return fmt.Sprintf("(RLit %v %s)", re.Flags&syntax.FoldCase != 0, runes())
+	case syntax.OpCharClass:
+		if len(re.Rune) == 0 {
+			return "(RClass (@nil (N*N)))"
+		}
+		var ss []string
+		for i := 0; i+1 < len(re.Rune); i += 2 {
+			ss = append(ss, fmt.Sprintf("(%d,%d)", re.Rune[i], re.Rune[i+1]))
+		}
+		return "(RClass [" + strings.Join(ss, ";") + "]%N)"
+	case syntax.OpAnyCharNotNL:
+		return "RAnyNotNL"
+	case syntax.OpAnyChar:
+		return "RAny"
+	case syntax.OpBeginLine:
+		return "RBeginLine"
+	case syntax.OpEndLine:
+		return "REndLine"
+	case syntax.OpBeginText:
+		return "RBeginText"
+	case syntax.OpEndText:
+		return "REndText"
+	case syntax.OpWordBoundary:
+		return "RWordB"
+	case syntax.OpNoWordBoundary:
+		return "RNoWordB"
+	case syntax.OpCapture:
+		return "(RCapture " + c06Re(re.Sub[0]) + ")"
+	case syntax.OpStar:
+		return "(RStar " + c06Re(re.Sub[0]) + ")"
+	case syntax.OpPlus:
+		return "(RPlus " + c06Re(re.Sub[0]) + ")"
+	case syntax.OpQuest:
+		return "(RQuest " + c06Re(re.Sub[0]) + ")"
+	case syntax.OpRepeat:
+		mx := "None"
+		if re.Max >= 0 {
+			mx = fmt.Sprintf("(Some %d%%nat)", re.Max)
+		}
+		return fmt.Sprintf("(RRepeat %d%%nat %s %s)", re.Min, mx, c06Re(re.Sub[0]))
+	case syntax.OpConcat:
+		return "(RConcat " + subs() + ")"
+	case syntax.OpAlternate:
+		return "(RAlt " + subs() + ")"
+	}
+	return fmt.Sprintf("(RInvalidOp%d)", re.Op) // does not type-check: a new op breaks the run loudly
+}
+
+// the result type of the outermost group: the smallest code of its type: directives (0 filematch, 1 filename, 2 repo; 100 none)
+func c06TopType(q [][]*dExpr) int {
+	t := 100
+	for _, c := range q {
+		for _, e := range c {
+			if e.kind == "type" {
+				code := []int{0, 1, 1, 2}[e.rtype]
+				if code < t {
+					t = code
+				}
+			}
+		}
+	}
+	return t
+}
+
+// where the upper-case letters of a pattern sit in its syntax tree (computed on regexp/syntax's parse of the
+// word itself, for the input histogram): "only below a repetition/group operator", "also at sequence level", none
+func c06RxUpperClass(v string) string {
+	re, err := syntax.Parse(v, syntax.Perl)
+	if err != nil {
+		return ""
+	}
+	if re.Op == syntax.OpLiteral {
+		return ""
+	}
+	top, under := false, false
+	var walk func(r *syntax.Regexp, u bool)
+	walk = func(r *syntax.Regexp, u bool) {
+		switch r.Op {
+		case syntax.OpLiteral, syntax.OpCharClass:
+			for _, c := range r.Rune {
+				if c >= 'A' && c <= 'Z' {
+					if u {
+						under = true
+					} else {
+						top = true
+					}
+				}
+			}
+		case syntax.OpStar, syntax.OpPlus, syntax.OpQuest, syntax.OpRepeat, syntax.OpCapture:
+			walk(r.Sub[0], true)
+		default:
+			for _, x := range r.Sub {
+				walk(x, u)
+			}
+		}
+	}
+	walk(re, false)
+	switch {
+	case under && !top:
+		return "rx-upper-only-below-operator"
+	case top:
+		return "rx-upper-at-sequence-level"
+	}
+	return "rx-no-upper"
 }
 
 func c06Shape(q [][]*dExpr) (depth, n int, feats map[string]bool) {
@@ -597,8 +874,10 @@ func TestVerifC06(t *testing.T) {
 	n := vfN(500)
 	shards := c06Shards(t)
 	ctx := context.Background()
+	contentMatches := 0 // line matches that are not file-name matches, in the last search
 	search := func(q query.Q) (map[string]bool, string) {
 		got := map[string]bool{}
+		contentMatches = 0
 		for _, s := range shards {
 			var res *zoekt.SearchResult
 			var err error
@@ -619,13 +898,23 @@ func TestVerifC06(t *testing.T) {
 			}
 			for _, f := range res.Files {
 				got[f.Repository+"//"+f.FileName] = true
+				for _, lm := range f.LineMatches {
+					if !lm.FileName {
+						contentMatches++
+					}
+				}
+				for _, cm := range f.ChunkMatches {
+					if !cm.FileName {
+						contentMatches++
+					}
+				}
 			}
 		}
 		return got, ""
 	}
 	seen := map[string]bool{}
 	for i := 0; i < n; i++ {
-		g := &c06Gen{r: r, evalOK: i%4 != 3}
+		g := &c06Gen{r: r, evalOK: true, rx: i%3 != 2}
 		depth := 1 + r.Intn(3)
 		dq := g.query(depth)
 		s := c06RenderQuery(dq, " ")
@@ -650,8 +939,9 @@ func TestVerifC06(t *testing.T) {
 			if serr != "" {
 				vfOracleFail("search:"+serr, "searching the parsed query fails: "+serr, replay)
 			} else {
-				refDiff := func(lenient bool) []string {
-					c06RegexLenient = lenient
+				refDiff := func(lenientRegex, lenientNeg bool) []string {
+					c06RegexLenient = lenientRegex
+					c06NegClassLenient = lenientNeg
 					want := map[string]bool{}
 					for di := range c06Docs {
 						dd := &c06Docs[di]
@@ -673,12 +963,24 @@ func TestVerifC06(t *testing.T) {
 					sort.Strings(diff)
 					return diff
 				}
-				if diff := refDiff(false); len(diff) > 0 {
+				// "filename (or file) - Returns only matching filenames": a query whose outermost group carries
+				// type:filename reports no content matches
+				if c06TopType(dq) == 1 && contentMatches > 0 {
+					vfOracleFail("type-filename-returns-content-matches", "type:filename query returns line matches inside file contents", replay)
+				}
+				if diff := refDiff(false, false); len(diff) > 0 {
 					replay["difference"] = diff
-					if d2 := refDiff(true); len(d2) == 0 {
-						vfOracleFail("regex-field-matches-file-names", "regex: is documented to match content but also selects documents by file name", replay)
-					} else {
-						replay["difference"] = d2
+					const whatRegex = "regex: is documented to match content but also selects documents by file name"
+					const whatNeg = "case:auto: a pattern whose only upper-case letters are inside a negated class [^A-Z] is searched case-insensitively"
+					switch {
+					case len(refDiff(true, false)) == 0:
+						vfOracleFail("regex-field-matches-file-names", whatRegex, replay)
+					case len(refDiff(false, true)) == 0:
+						vfOracleFail("auto-case-upper-only-in-negated-class", whatNeg, replay)
+					case len(refDiff(true, true)) == 0:
+						vfOracleFail("regex-field-matches-file-names", whatRegex, replay)
+						vfOracleFail("auto-case-upper-only-in-negated-class", whatNeg, replay)
+					default:
 						vfOracleFail("selection-differs", "the parsed query selects other documents than the documented meaning", replay)
 					}
 				}
@@ -699,6 +1001,11 @@ func TestVerifC06(t *testing.T) {
 		}
 		texts := map[string]bool{}
 		c06Words(dq, texts)
+		for _, w := range vfSortedKeys(texts) {
+			if c := c06RxUpperClass(w); c != "" {
+				feats[c] = true
+			}
+		}
 		table, rxt := c06Tables(texts)
 		coq := cTuple(c06QueryCoq(dq), c06hS(s), table, rxt, res)
 		cls := []string{fmt.Sprintf("depth=%d", d), fmt.Sprintf("exprs=%d", min(sz, 8))}
